@@ -1,10 +1,202 @@
-import PhysisModel.Base.Proto
+import PhysisModel.Driver.C06Case
+import PhysisModel.Spec.MdlEdit
+import PhysisModel.Model.MdlWrite
 namespace Physis.Driver.C07
-open Physis Physis.Proto
+open Physis Physis.Proto Physis.Mdl Physis.Spec.Mdl Physis.Driver.C06Case
 
-/-- one case line in, one answer line out (see `Base/Proto.lean`) -/
+/-! Case grammar (after the model tokens of `Driver/C06Case.lean` and a `|` token):
+```
+rv=<lod>:<part>:<vcount>:<stride.hex/…>:<indices u16 BE hex|->:<off.count/…|->
+rs=1
+as=<lod>:<shape>:<shape_mesh_index>:<part>:<base/…|->:<stride.hex/…|->
+```
+The concrete input for the real code carries decoded vertices instead of stream bytes:
+`rv=<lod>:<part>:<vertices|->:<indices|->:<off.count/…|->`, `as=…:<base.vertex/…|->`. -/
+
+def parseStreams (s : String) : Option (List AStream) :=
+  (listOf "/" s).mapM fun t =>
+    match t.splitOn "." with
+    | [st, h] => do
+      let st ← st.toNat?
+      let d ← Bytes.ofHexFast h
+      some ⟨st.toUInt8, d⟩
+    | _ => none
+
+def parsePairs (s : String) : Option (List (UInt32 × UInt32)) :=
+  (listOf "/" s).mapM fun t =>
+    match t.splitOn "." with
+    | [a, b] => do
+      let a ← a.toNat?
+      let b ← b.toNat?
+      some (a.toUInt32, b.toUInt32)
+    | _ => none
+
+def parseEdit (tok : String) : Option AEdit := do
+  let (k, v) ← kv tok
+  match k, v.splitOn ":" with
+  | "rv", [lod, part, vc, streams, indices, subs] => do
+    let lod ← lod.toNat?
+    let part ← part.toNat?
+    let vc ← vc.toNat?
+    let streams ← parseStreams streams
+    let indices ← (Bytes.ofHexFast indices) >>= u16sOfBE
+    let subs ← parsePairs subs
+    some (.replace lod part vc.toUInt16 streams indices subs)
+  | "rs", ["1"] => some .removeShapes
+  | "as", [lod, shape, smi, part, bases, streams] => do
+    let lod ← lod.toNat?
+    let shape ← shape.toNat?
+    let smi ← smi.toNat?
+    let part ← part.toNat?
+    let bases ← nats "/" bases
+    let streams ← parseStreams streams
+    some (.addShape lod shape smi part (bases.map Nat.toUInt32) streams)
+  | _, _ => none
+
+def splitBar (toks : List String) : List String × List String :=
+  (toks.takeWhile (· != "|"), (toks.dropWhile (· != "|")).drop 1)
+
+/-- an edit with its vertex data decoded under the mesh's declaration -/
+inductive CEdit
+  | replace (lod part : Nat) (verts : List Vertex) (indices : List UInt16) (subs : List (UInt32 × UInt32))
+  | removeShapes
+  | addShape (lod shape smi part : Nat) (vals : List (UInt32 × Vertex))
+
+def meshAt (m : AbstractModel) (lod part : Nat) : Option AMesh := do
+  let l ← m.lods[lod]?
+  l.meshes[part]?
+
+/-- concrete arguments for the API call, decoded with the specification's `verticesOf` -/
+def concretize (m : AbstractModel) : AEdit → Option CEdit
+  | .replace lod part vc streams indices subs => do
+    let mesh ← meshAt m lod part
+    some (.replace lod part (verticesOf { mesh with vertexCount := vc, streams := streams }) indices subs)
+  | .removeShapes => some .removeShapes
+  | .addShape lod shape smi part bases streams => do
+    let mesh ← meshAt m lod part
+    let vs := verticesOf { mesh with vertexCount := bases.length.toUInt16, streams := streams }
+    some (.addShape lod shape smi part (List.zip bases vs))
+
+def concretizeAll : AbstractModel → List AEdit → Option (List CEdit)
+  | _, [] => some []
+  | m, e :: rest => do
+    let c ← concretize m e
+    -- an edit the specification rejects (outside the quantifier) leaves the abstract state as it is
+    let m' := (applyEdit m e).getD m
+    let cs ← concretizeAll m' rest
+    some (c :: cs)
+
+def ceditText : CEdit → String
+  | .replace lod part verts indices subs =>
+    "rv=" ++ toString lod ++ ":" ++ toString part ++ ":" ++ verticesText verts ++ ":" ++
+      orDash (indices.flatMap u16Hex) ++ ":" ++
+      joinOrDash "/" (subs.map fun (o, c) => toString o.toNat ++ "." ++ toString c.toNat)
+  | .removeShapes => "rs=1"
+  | .addShape lod shape smi part vals =>
+    "as=" ++ toString lod ++ ":" ++ toString shape ++ ":" ++ toString smi ++ ":" ++ toString part ++
+      ":" ++ joinOrDash "/" (vals.map fun (b, v) => toString b.toNat ++ "." ++ String.ofList (vertexChars v))
+
+def applyCEdit (m : MDL) : CEdit → Mdl.R MDL
+  | .replace lod part verts indices subs => replaceVertices m lod part verts indices subs
+  | .removeShapes => removeShapeMeshes m
+  | .addShape lod shape smi part vals => addShapeMesh m lod shape smi part vals
+
+def b01 (b : Bool) : String := if b then "1" else "0"
+
+def flagsText (edited : Bool) (fheq mdeq : Bool) (f : HeaderFlags) : String :=
+  if edited then
+    "fheq=- mdeq=" ++ b01 mdeq ++ " sz=" ++ b01 f.sized ++ " pad=" ++ b01 f.padded ++
+      " dis=" ++ b01 f.disjoint ++ " inb=" ++ b01 f.inBounds
+  else
+    "fheq=" ++ b01 fheq ++ " mdeq=" ++ b01 mdeq ++ " sz=- pad=- dis=- inb=" ++ b01 f.inBounds
+
+/-- parse → edits → write → parse, as the model of the code does it -/
+def modelRun (file : Bytes) (edits : List CEdit) (withView : Bool := true) : String × Option Bytes :=
+  match fromExisting file with
+  | .error .fail => ("none", none)
+  | .error .panic => ("none", none)   -- reader panic sites return `None` since the C18-5x fixes
+  | .ok m0 =>
+    match edits.foldlM applyCEdit m0 with
+    | .error _ => ("panic@edit", none)
+    | .ok mE =>
+      match writeToBuffer mE with
+      | .error .fail => ("none@write", none)
+      | .error .panic => ("panic@write", none)
+      | .ok buf =>
+        match fromExisting buf with
+        | .error .fail => ("none@reparse", some buf)
+        | .error .panic => ("none@reparse", some buf)   -- reader panic sites return `None` (C18-5x fixes)
+        | .ok m1 =>
+          let fl := headerFlags m1.fileHeader buf.length m1.lods
+          ("ok " ++ flagsText (!edits.isEmpty) (buf.take 68 == file.take 68)
+              (decide (m1.modelData = mE.modelData)) fl ++
+            (if withView then " " ++ viewText m1.view else ""), some buf)
+
+def specText (edited : Bool) (v : View) : String :=
+  "ok " ++ flagsText edited true true HeaderFlags.allOk ++ " " ++ viewText v
+
+/-- the final state must satisfy C07's quantifier: canonical, consistent starts -/
+def inQuantifier (m : AbstractModel) : Bool := WF m && CanonicalAny m && (view m).isSome
+
+/-- input class of the recorded finding: reader-supported layout without an inverse encoder -/
+def whyOutside (m : AbstractModel) : String :=
+  if !WF m then "outside:wf" else if !CanonicalAny m then "outside:canonical" else "outside:refs"
+
+def kfTags (m : AbstractModel) : List String :=
+  if hasUnwritable m then ["kf:c07.writer-unsupported-layout"] else []
+
 def handle (line : String) : String :=
   match fields line with
+  | "write" :: toks =>
+    match parseModel toks with
+    | none => bad
+    | some a =>
+      let file := encodeMdl a
+      let (ans, _) := modelRun file []
+      let input := "edit " ++ Bytes.toHex file
+      match inQuantifier a, view a with
+      | true, some v => answer input (specText false v) (kfTags a) (some ans)
+      | _, _ => answer input ans ["triv", whyOutside a]
+  | "edit" :: toks =>
+    let (mt, et) := splitBar toks
+    match parseModel mt, et.mapM parseEdit with
+    | some a, some es =>
+      match concretizeAll a es with
+      | none => bad
+      | some ces =>
+        let file := encodeMdl a
+        let (ans, _) := modelRun file ces
+        let input := "edit " ++ Bytes.toHex file ++ String.join (ces.map fun c => " " ++ ceditText c)
+        match applyEdits a es with
+        | some a' =>
+          match inQuantifier a && inQuantifier a', view a' with
+          | true, some v => answer input (specText (!es.isEmpty) v) (kfTags a') (some ans)
+          | _, _ => answer input ans ["triv", if inQuantifier a then whyOutside a' else whyOutside a]
+        | none => answer input ans ["triv", "outside:edit"]
+    | _, _ => bad
+  | "wbytes" :: toks =>
+    let (mt, et) := splitBar toks
+    match parseModel mt, et.mapM parseEdit with
+    | some a, some es =>
+      match concretizeAll a es with
+      | none => bad
+      | some ces =>
+        let file := encodeMdl a
+        let (ans, buf) := modelRun file ces
+        let input := "wbytes " ++ Bytes.toHex file ++ String.join (ces.map fun c => " " ++ ceditText c)
+        let out := match buf with
+          | some b => Bytes.toHex b
+          | none => ans
+        answer input out ["corr"]
+    | _, _ => bad
+  | ["rawwrite", h] =>
+    match Bytes.ofHexFast h with
+    | none => bad
+    | some file =>
+      let (ans, _) := modelRun file [] false
+      match fromExisting file with
+      | .ok _ => answer "=" ("ok " ++ flagsText false true true HeaderFlags.allOk) ["sample"] (some ans)
+      | _ => answer "=" ans ["triv"]
   | _ => bad
 
 end Physis.Driver.C07
